@@ -46,6 +46,12 @@ Theorem C05_build_context_rejects_with_error : forall d s body e,
   build_context_of d s body = RErr e -> e = ErrOther.
 Proof. exact build_context_of_err. Qed.
 
+(* what a call site hands to build_context is build_context_of on the string-keyed entries of
+   the attribute map: an entry under a non-string key (possible through a spread) is dropped *)
+Theorem C05_call_site_uses_string_keyed_arguments : forall d m body,
+  build_context d (str_keys m) (kw_get m) body = build_context_of d (str_entries m) body.
+Proof. exact vm_call_is_build_context_of. Qed.
+
 (* ---------------------------------------------------------------- isolation *)
 
 (* the callee's state is State::new_with_chunk(&context, chunk): a name resolves to what the
